@@ -21,7 +21,8 @@
 //     when the definition sets a hard cpu/memory limit [C07; quotas.md example];
 //   - requiring an amount a of a resource either leaves used+a < hard and
 //     records it, or terminates the context (status killed, termination is
-//     signalled to the caller, used unchanged) [quotas.md "The program is
+//     signalled to the caller; used unchanged, or set to kill-1 = "all that was
+//     left is gone", both accepted) [quotas.md "The program is
 //     required to terminate before the limit is reached"; C07 "used never
 //     exceeds kill"]; this holds in every status: a context that was already
 //     killed never gets more than its limit;
@@ -342,7 +343,19 @@ func (s *Stack) require(res int, amt *big.Int) []Outcome {
 	}
 	nu := new(big.Int).Add(c.Used[res], amt)
 	if !c.Hard[res].Inf && nu.Cmp(c.Hard[res].N) >= 0 {
-		return []Outcome{killed()}
+		// Refused.  What the dying context reports as used is not decided by
+		// the sources beyond "at least what it consumed, less than kill":
+		// unchanged, or "all it had left is gone" (kill-1, the value the
+		// quotas.md example shows: 999 of 1000) are both accepted.
+		out := []Outcome{killed()}
+		if c.Hard[res].N.Sign() > 0 {
+			ex := killed()
+			ex.Next.Top().Used[res] = new(big.Int).Sub(c.Hard[res].N, big.NewInt(1))
+			if ex.Next.Top().Used[res].Cmp(c.Used[res]) >= 0 {
+				out = append(out, ex)
+			}
+		}
+		return out
 	}
 	n := s.Clone()
 	n.Top().Used[res] = nu
